@@ -60,6 +60,15 @@ class Str:
         raise Unmodelled('index into str')
 
 
+class SpecialStr(Str):
+    """symbolic text with structure (decimal rendering of an integer / float): supports the string operations
+    listed in `sop`; anything else is UNMODELLED"""
+    __slots__ = ()
+
+    def sop(self, ctx, name, *args):
+        raise Unmodelled('%s on %s' % (name, type(self).__name__))
+
+
 class Bytes:
     __slots__ = ('b',)
 
@@ -224,11 +233,17 @@ def m_string_from_char(ctx, args, callee):
 
 @model(r'^std::string::String::len$|^core::str::<impl str>::len$|^str::<impl str>::len$')
 def m_str_len(ctx, args, callee):
+    _s0 = as_str(ctx, args[0])
+    if isinstance(_s0, SpecialStr):
+        return _s0.sop(ctx, 'len', args, callee)
     return as_str(ctx, args[0]).length(ctx)
 
 
 @model(r'^std::string::String::is_empty$|^core::str::<impl str>::is_empty$|^str::<impl str>::is_empty$')
 def m_str_is_empty(ctx, args, callee):
+    _s0 = as_str(ctx, args[0])
+    if isinstance(_s0, SpecialStr):
+        return _s0.sop(ctx, 'is_empty', args, callee)
     s = as_str(ctx, args[0])
     if s.term is not None:
         return z3.Length(s.term) == 0
@@ -286,6 +301,9 @@ def m_str_eq(ctx, args, callee):
 
 @model(r'^(core::)?str::<impl str>::starts_with$')
 def m_starts_with(ctx, args, callee):
+    _s0 = as_str(ctx, args[0])
+    if isinstance(_s0, SpecialStr):
+        return _s0.sop(ctx, 'starts_with', args, callee)
     s = as_str(ctx, args[0]); p = ctx.deref(args[1])
     if is_bv(p):
         pc = conc(p)
@@ -300,6 +318,9 @@ def m_starts_with(ctx, args, callee):
 
 @model(r'^(core::)?str::<impl str>::ends_with$')
 def m_ends_with(ctx, args, callee):
+    _s0 = as_str(ctx, args[0])
+    if isinstance(_s0, SpecialStr):
+        return _s0.sop(ctx, 'ends_with', args, callee)
     s = as_str(ctx, args[0]); p = ctx.deref(args[1])
     if is_bv(p):
         p = Str(chr(conc(p)))
@@ -311,6 +332,9 @@ def m_ends_with(ctx, args, callee):
 
 @model(r'^(core::)?str::<impl str>::contains$')
 def m_contains(ctx, args, callee):
+    _s0 = as_str(ctx, args[0])
+    if isinstance(_s0, SpecialStr):
+        return _s0.sop(ctx, 'contains', args, callee)
     s = as_str(ctx, args[0]); p = ctx.deref(args[1])
     if is_bv(p):
         pc = conc(p)
@@ -327,6 +351,9 @@ def m_contains(ctx, args, callee):
 
 @model(r'^(core::)?str::<impl str>::to_lowercase$|^(core::)?str::<impl str>::to_ascii_lowercase$')
 def m_to_lower(ctx, args, callee):
+    _s0 = as_str(ctx, args[0])
+    if isinstance(_s0, SpecialStr):
+        return _s0.sop(ctx, 'to_lower', args, callee)
     s = as_str(ctx, args[0])
     if s.term is not None:
         raise Unmodelled('to_lowercase on z3 string')
@@ -337,6 +364,9 @@ def m_to_lower(ctx, args, callee):
 
 @model(r'^(core::)?str::<impl str>::to_uppercase$|^(core::)?str::<impl str>::to_ascii_uppercase$')
 def m_to_upper(ctx, args, callee):
+    _s0 = as_str(ctx, args[0])
+    if isinstance(_s0, SpecialStr):
+        return _s0.sop(ctx, 'to_upper', args, callee)
     s = as_str(ctx, args[0])
     if s.term is not None:
         raise Unmodelled('to_uppercase on z3 string')
@@ -351,22 +381,76 @@ def _rust_trim_chars():
 
 @model(r'^(core::)?str::<impl str>::trim$')
 def m_trim(ctx, args, callee):
+    _s0 = as_str(ctx, args[0])
+    if isinstance(_s0, SpecialStr):
+        return _s0.sop(ctx, 'trim', args, callee)
     return lift_str(ctx, lambda a: a.strip(), as_str(ctx, args[0]))
 
 
 @model(r'^(core::)?str::<impl str>::trim_start$')
 def m_trim_start(ctx, args, callee):
+    _s0 = as_str(ctx, args[0])
+    if isinstance(_s0, SpecialStr):
+        return _s0.sop(ctx, 'trim', args, callee)
     return lift_str(ctx, lambda a: a.lstrip(), as_str(ctx, args[0]))
 
 
 @model(r'^(core::)?str::<impl str>::trim_end$')
 def m_trim_end(ctx, args, callee):
+    _s0 = as_str(ctx, args[0])
+    if isinstance(_s0, SpecialStr):
+        return _s0.sop(ctx, 'trim', args, callee)
     return lift_str(ctx, lambda a: a.rstrip(), as_str(ctx, args[0]))
 
 
 @model(r'^(core::)?str::<impl str>::replace$')
 def m_replace(ctx, args, callee):
+    _s0 = as_str(ctx, args[0])
+    if isinstance(_s0, SpecialStr):
+        return _s0.sop(ctx, 'replace', args, callee)
     return lift_str(ctx, lambda a, b, c: a.replace(b, c), as_str(ctx, args[0]), as_str(ctx, args[1]), as_str(ctx, args[2]))
+
+
+@model(r'^<(std::string::String|str) as std::ops::Index<(std::ops::)?Range(To|From|Full|Inclusive|ToInclusive)?<usize>>>::index$|^<(std::string::String|str) as std::ops::Index<RangeFull>>::index$'
+       r'|^(core::)?str::<impl str>::get$', 'str_slice')
+def m_str_slice(ctx, args, callee):
+    s_ = as_str(ctx, args[0])
+    rng = args[1]
+    kind = re.search(r'Index<(?:std::ops::)?(\w+)', callee)
+    kind = kind.group(1) if kind else 'Range'
+    if isinstance(s_, SpecialStr):
+        return s_.sop(ctx, 'slice', args, callee, kind)
+    if kind == 'RangeFull':
+        return s_
+    f = rng.f
+    def cv(x, hi):
+        c = conc(x)
+        if c is None:
+            c = ctx.concretize(x, range(0, hi + 1))
+        return c
+    if s_.s is None:
+        raise Unmodelled('slice of symbolic string')
+    b = s_.s.encode('utf-8'); n = len(b)
+    if kind == 'RangeTo':
+        lo, hi = 0, cv(f[0], n + 1)
+    elif kind == 'RangeFrom':
+        lo, hi = cv(f[0], n + 1), n
+    elif kind == 'Range':
+        lo, hi = cv(f[0], n + 1), cv(f[1], n + 1)
+    elif kind == 'RangeToInclusive':
+        lo, hi = 0, cv(f[0], n + 1) + 1
+    else:
+        raise Unmodelled('slice kind ' + kind)
+    okb = lo <= hi <= n
+    if okb:
+        try:
+            b[:lo].decode('utf-8'); b[lo:hi].decode('utf-8')
+        except UnicodeDecodeError:
+            okb = False
+    if callee.endswith('::get'):
+        return some(Str(b[lo:hi].decode('utf-8'))) if okb else none()
+    ctx.obligation(BoolVal(okb), 'byte index out of range / not a char boundary in str slice')
+    return Str(b[lo:hi].decode('utf-8'))
 
 
 def _parse_int_py(txt, signed, w):
@@ -1522,6 +1606,9 @@ def m_iter_collect(ctx, args, callee):
 
 @model(r'^<.* as Iterator>::count$')
 def m_iter_count(ctx, args, callee):
+    it0 = _it(ctx, args[0])
+    if hasattr(it0, 'count_hook'):
+        return it0.count_hook(ctx)
     return BitVecVal(len(drain(ctx, _it(ctx, args[0]))), 64)
 
 
